@@ -4,6 +4,7 @@ import RzilVerif.Model.DriverText
 import RzilVerif.Model.DriverC18
 import RzilVerif.Model.DriverPP
 import RzilVerif.Model.DriverSem
+import RzilVerif.Model.DriverMeta
 open Rzil
 
 def dispatch (st : DState) (line : String) : DState × String :=
@@ -24,7 +25,10 @@ def dispatch (st : DState) (line : String) : DState × String :=
           | none =>
             match handleSem st xs with
             | some r => (st, toString r)
-            | none => (st, "(error bad-request)")
+            | none =>
+              match handleMeta xs with
+              | some r => (st, toString r)
+              | none => (st, "(error bad-request)")
   | some _ => (st, "(error bad-request)")
 
 partial def loop (hin : IO.FS.Stream) (hout : IO.FS.Stream) (st : DState) : IO Unit := do
